@@ -18,7 +18,8 @@ def run(ck):
         tail = segs[-1]
         data = final[tail]
         imgs, what = [], []
-        step = 1 if len(data) <= 400 else max(1, len(data) // 400)
+        big = any(a["m"].get("fill") for a in h["att"])       # a many-key import: record boundaries inside it matter, every offset is cut
+        step = 1 if (len(data) <= 400 or (big and len(data) <= 12000)) else max(1, len(data) // 400)
         for cut in range(0, len(data) + 1, step):
             f = dict(final); f[tail] = data[:cut]
             imgs.append(f); what.append("cut@%d/%d" % (cut, len(data)))
